@@ -121,3 +121,50 @@ def run_case(case):
     tr["out"] = "ok"
     tr["events"] = sorted({e["e"] + ":" + str(e.get("cutoff", "")) for e in _verif.drain()})
     return tr
+
+
+def run_scaled_multikey(case):
+    """several keys whose label counts make the mixed-radix weights cross 2^31 / 2^32: case = L (labels per trailing key), nkeys,
+    target f2d|gb.  Rows: the diagonal (0, i, .., i) for every i < L (so that every trailing key really has L labels) plus the
+    corner and unit tuples, one of them with a null component.  The trace carries only the PROBE rows (corners, units, a sample
+    of the diagonal) with their codes and the label found at each code; the number of groups is known by construction."""
+    from groupby_lib import GroupBy
+    from groupby_lib.groupby import factorization as F
+    L, nk = case["L"], case["nkeys"]
+    diag = [(0,) + (i,) * (nk - 1) for i in range(L)]
+    m = L - 1
+    corners = [(1,) + (0,) * (nk - 1), (1,) + (m,) * (nk - 1), (1, 0) + (m,) * (nk - 2), (1, m) + (0,) * (nk - 2), (0, 1) + (0,) * (nk - 2),
+               (0, 0) + (1,) * (nk - 2), (1, 1) + (1,) * (nk - 2), (0, m) + (0,) * (nk - 2), (1,) + (m // 2,) * (nk - 1), (1, m // 2 + 1) + (m // 2,) * (nk - 2)]
+    rows = diag + corners + corners[:3]          # (the first three corners twice: equal keys, equal codes)
+    cols = [np.array([r[j] for r in rows], dtype=np.int64) for j in range(nk)]
+    nullrow = len(rows)
+    cols = [np.append(c, 0).astype(float) if j == nk - 1 else np.append(c, 0) for j, c in enumerate(cols)]
+    cols[nk - 1][nullrow] = np.nan                # one row with a null in the last component
+    probe = sorted(set(list(range(0, L, max(1, L // 40))) + list(range(L, len(rows) + 1)) + [0, 1, L - 1]))
+    tr = {"probe": 1, "L": L, "nkeys": nk, "target": case["target"], "keys": [], "codes": [], "labels_at": [], "ngroups": -1,
+          "expected_ngroups": len(set(rows)), "cfg": {"L": L, "nkeys": nk}}
+    try:
+        if case["target"] == "f2d":
+            codes, labels = call(F.factorize_2d, *cols)
+            codes = np.asarray(codes)
+            lab = labels
+        else:
+            gb = call(GroupBy, cols)
+            codes = np.asarray(gb.group_ikey)
+            lab = gb.result_index
+        tr["ngroups"] = int(len(lab))
+        for r in probe:
+            key = [NULL if (isinstance(c[r], float) and c[r] != c[r]) else int(c[r]) for c in cols]
+            code = int(codes[r])
+            tr["keys"].append(key)
+            tr["codes"].append(code)
+            if 0 <= code < len(lab):
+                tup = lab[code]
+                tup = tup if isinstance(tup, tuple) else (tup,)
+                tr["labels_at"].append([NULL if (isinstance(x, float) and x != x) else int(x) for x in tup])
+            else:
+                tr["labels_at"].append([JUNK] * nk if code != -1 else [NULL] * nk)
+        tr["out"] = "ok"
+    except Exception as ex:
+        tr.update(out="raise", exc=type(ex).__name__, msg=str(ex)[:200])
+    return tr
